@@ -140,7 +140,86 @@ pub fn world(desc: &Value) -> World {
     World::new(universe(), cfgs, max_dev, desc.clone())
 }
 
+// ------------------------------------------------------------------------------------------------
+// Count thresholds on change-sets: routers of 100 / 128 / 130 / 300 rules (one static path each) updated through
+// RuleChangeSet::update_existing_router with change-sets as large as the router, or larger, that still leave live rules untouched
+// (deleted ids the router does not hold, an id listed twice, an id both deleted and updated, non-live ids among the updated).
+
+/// (signature, description) per violation of one (n, shape) case
+pub fn many_change_set_case(n: usize, shape: usize) -> Vec<(String, String)> {
+    use redirectionio::api::{Rule, RuleChangeSet};
+    use redirectionio::http::Request;
+    use redirectionio::router::Router;
+    use std::collections::BTreeMap;
+    let rc = redirectionio::RouterConfig::default();
+    let mk = |id: &str, path: &str, target: &str| -> Rule {
+        let mut r = RuleSpec::base(id);
+        r.path = path.to_string();
+        let mut v = r.to_json();
+        v["target"] = json!(target);
+        v["status_code"] = json!(301);
+        serde_json::from_value(v).expect("rule")
+    };
+    let id = |i: usize| format!("m{i:03}");
+    let mut router = Router::<Rule>::from_config(rc.clone());
+    let mut live: BTreeMap<String, (String, String)> = BTreeMap::new();
+    for i in 0..n {
+        router.insert(mk(&id(i), &format!("/m/{i}"), "/v1"));
+        live.insert(id(i), (format!("/m/{i}"), "/v1".to_string()));
+    }
+    let ghosts: Vec<String> = (0..n).map(|i| format!("ghost{i}")).collect();
+    let (added, updated, deleted): (Vec<Rule>, Vec<Rule>, Vec<String>) = match shape {
+        // all but two live ids deleted, padded with ids the router does not hold, one rule added
+        0 => (vec![mk("new", "/m/new", "/v1")], vec![], (0..n - 2).map(id).chain(ghosts.iter().take(2).cloned()).collect()),
+        // half of the live ids, each listed twice
+        1 => (vec![], vec![], (0..n / 2).map(id).chain((0..n / 2).map(id)).collect()),
+        // as many deleted ids as the router holds rules, none of them live
+        2 => (vec![], vec![], ghosts.clone()),
+        // half of the live ids updated (new target) and also listed as deleted (the update wins: it is inserted after the removal)
+        3 => (vec![], (0..n / 2).map(|i| mk(&id(i), &format!("/m/{i}"), "/v2")).collect(), (0..n / 2).map(id).collect()),
+        // non-live ids among the updated (they are simply inserted), as many as the router holds rules
+        _ => (vec![], (0..n).map(|i| mk(&format!("up{i}"), &format!("/u/{i}"), "/v2")).collect(), vec![]),
+    };
+    for d in &deleted {
+        live.remove(d);
+    }
+    for r in updated.iter().chain(added.iter()) {
+        live.insert(r.id.clone(), (r.source.path.clone(), r.target.clone().unwrap_or_default()));
+    }
+    let shared = std::sync::Arc::new(router);
+    let before: Vec<usize> = (0..n).map(|i| shared.match_request(&Request::from_config(&rc, format!("/m/{i}"), None, None, None, None, None)).len()).collect();
+    let cs = RuleChangeSet { added, updated, deleted: deleted.into_iter().collect() };
+    let result = cs.update_existing_router(shared.clone());
+    let mut out = Vec::new();
+    let tag = format!("many-rules-change-set:n={n}:shape={shape}");
+    if result.len() != live.len() {
+        out.push((format!("{tag}:len"), format!("len() is {} after the change-set, {} rules are live", result.len(), live.len())));
+    }
+    let mut paths: Vec<String> = (0..n).map(|i| format!("/m/{i}")).collect();
+    paths.push("/m/new".into());
+    paths.extend((0..n).map(|i| format!("/u/{i}")));
+    for p in &paths {
+        let req = Request::from_config(&rc, p.clone(), None, None, None, None, None);
+        let mut got: Vec<(String, String)> = result.match_request(&req).iter().map(|r| (r.id().to_string(), r.handler().target.clone().unwrap_or_default())).collect();
+        got.sort();
+        let mut want: Vec<(String, String)> = live.iter().filter(|(_, (path, _))| path == p).map(|(i, (_, t))| (i.clone(), t.clone())).collect();
+        want.sort();
+        if got != want {
+            out.push((format!("{tag}:differs-from-the-live-rules"), format!("request {p}: the updated router answers {got:?}, the live rules give {want:?}")));
+            break;
+        }
+    }
+    let after: Vec<usize> = (0..n).map(|i| shared.match_request(&Request::from_config(&rc, format!("/m/{i}"), None, None, None, None, None)).len()).collect();
+    if before != after || shared.len() != n {
+        out.push((format!("{tag}:original-router-changed"), format!("the shared original router answers differently after update_existing_router (len {} of {n})", shared.len())));
+    }
+    out
+}
+
 pub fn replay_with(prop: &'static str, checks: Checks, case: &Value) -> Vec<String> {
+    if case["kind"] == "many-rules-change-set" {
+        return many_change_set_case(case["n"].as_u64().unwrap_or(0) as usize, case["shape"].as_u64().unwrap_or(0) as usize).into_iter().map(|(s, _)| s).collect();
+    }
     let ctx = Ctx::new(prop, Tier::Quick, "model_checking");
     let w = world(&case["world"]);
     let history: Vec<Op> = match serde_json::from_value(case["history"].clone()) {
@@ -169,6 +248,18 @@ pub fn run_histories(prop: &'static str, checks: Checks, tier: Tier, plans: Vec<
     let mut samples = Vec::new();
     let mut runs = Vec::new();
     let mut max_depth = 0;
+    let mut many_cases = 0u64;
+    if prop == "C02" {
+        for n in [100usize, 128, 130, 300] {
+            for shape in 0..5usize {
+                many_cases += 1;
+                let case = json!({"kind": "many-rules-change-set", "n": n, "shape": shape});
+                for (sig, what) in crate::common::run_case(|| case.clone(), || many_change_set_case(n, shape)) {
+                    ctx.report(crate::common::Violation { signature: sig, what, case: case.clone(), weight: (n * 10 + shape) as u64 });
+                }
+            }
+        }
+    }
     for (cfg_bits, depth, max_dev, cache_ops) in plans {
         let desc = json!({"kind": "c02-universe", "cfg_bits": cfg_bits, "max_dev": max_dev});
         let w = world(&desc);
@@ -205,6 +296,7 @@ pub fn run_histories(prop: &'static str, checks: Checks, tier: Tier, plans: Vec<
         .set("distinct_nontrivial", json!(outcomes))
         .set("rule", json!("evaluations = (state, probe) pairs; distinct_nontrivial = distinct vectors of match results over a state's probe set"))
         .set("nonempty_matches", json!(nonempty))
+        .set("many_rules_change_set_cases", json!(many_cases))
         .set("runs", json!(runs))
         .set("op_alphabet", json!("insert(variant) / remove(live id | absent id) / batch_remove(pairs of live ids, live+absent) / change-set (update to the other variant of a live id, add+delete, add+update+delete, resubmission of the same version, delete of an absent id) via RuleChangeSet::update_existing_router / cache(None|1|2)"))
         .set("exhaustive", json!(true));
